@@ -25,10 +25,11 @@ type tspec struct {
 	udp  bool
 	tier int
 	plan func(n int, r vh.AnnReq) annh.Rep
+	late bool // not in the .torrent: added with Torrent.AddTracker during the scenario
 }
 
 type step struct {
-	op string // sleep | need | seed | stop | start | waitann
+	op string // sleep | need | seed | stop | start | waitann | addtracker | release | waitstatus | stopnowait | waitstopped
 	ms int
 	k  int
 	n  int
@@ -43,6 +44,9 @@ type spec struct {
 	size    int64
 	steps   []step
 	storm   bool // a reply with interval <= 0 is scripted while the torrent needs no peers: cap the announces
+	gate    string // "open" | "read": storage operations of that kind block until the "release" step (holds Allocating / Verifying)
+	addFirst bool  // AddTracker before the torrent is started (state Stopped)
+	rtx     bool   // retransmission family: three torrents on one UDP tracker (runRtx)
 }
 
 const stormCap = 150
@@ -79,7 +83,35 @@ func genSpecs(seed int64, n int, tier string) []spec {
 	}
 	for len(out) < n {
 		i := len(out)
-		switch i % 10 {
+		switch i % 13 {
+		case 10, 11: // Torrent.AddTracker in every torrent state: one announcer per tracker per run, whenever the tracker arrives
+			states := []string{"stopped", "allocating", "verifying", "downloading", "seeding", "stopping"}
+			st := states[(2*(i/13)+(i%13-10))%6]
+			rs := []annh.Rep{okRep(vh.I64(1), nil)}
+			sp := spec{kind: "addtracker-" + st, cmin: 800, size: 40000,
+				trk: []tspec{{udp: rng.Intn(2) == 0, tier: 0, plan: planSeq(rs)}, {udp: rng.Intn(2) == 0, tier: 1, plan: planSeq(rs), late: true}}}
+			tail := []step{{op: "sleep", ms: 1900 + rng.Intn(500)}, {op: "stop"}}
+			switch st {
+			case "stopped":
+				sp.addFirst = true
+				sp.steps = tail
+			case "allocating":
+				sp.gate = "open"
+				sp.steps = append([]step{{op: "waitstatus", n: int(torrent.Allocating), ms: 3000}, {op: "sleep", ms: 100}, {op: "addtracker"}, {op: "sleep", ms: 150}, {op: "release"}}, tail...)
+			case "verifying":
+				sp.gate, sp.prefill = "read", true
+				sp.steps = append([]step{{op: "waitstatus", n: int(torrent.Verifying), ms: 3000}, {op: "sleep", ms: 100}, {op: "addtracker"}, {op: "sleep", ms: 150}, {op: "release"}}, tail...)
+			case "downloading":
+				sp.steps = append([]step{{op: "sleep", ms: 300 + rng.Intn(600)}, {op: "addtracker"}}, tail...)
+			case "seeding":
+				sp.prefill = true
+				sp.steps = append([]step{{op: "sleep", ms: 300 + rng.Intn(600)}, {op: "addtracker"}}, tail...)
+			case "stopping":
+				sp.steps = append([]step{{op: "sleep", ms: 700}, {op: "stopnowait"}, {op: "addtracker"}, {op: "waitstopped"}, {op: "start"}}, tail...)
+			}
+			add(sp)
+		case 12: // BEP 15 retransmission: the tracker ignores the first datagram of torrent 1 while two other torrents keep announcing
+			add(spec{kind: "rtx", cmin: 800, size: 40000, rtx: true})
 		case 0, 1: // idle leecher (needs peers: the min interval governs), HTTP + UDP, arbitrary interval values
 			var h, u []annh.Rep
 			for j := 0; j < 6; j++ {
@@ -181,6 +213,24 @@ func run(sp spec, root string, seed int64) *annh.Sc {
 	tierKs := map[int][]int{}
 	maxTier := 0
 	var stormHit atomic.Bool
+	if sp.rtx {
+		return runRtx(sp, sc, root, seed)
+	}
+	gate := make(chan struct{})
+	var gateOnce sync.Once
+	if sp.gate != "" {
+		env.Prov.SetHook(func(phase, op, tid, name string, off int64, n int) error {
+			if phase == "enter" && op == sp.gate {
+				select {
+				case <-gate:
+				case <-time.After(20 * time.Second):
+				}
+			}
+			return nil
+		})
+		defer gateOnce.Do(func() { close(gate) })
+	}
+	var lateURLs []string
 	for i, ts := range sp.trk {
 		k, err := annh.NewTrk(sc, i+1, ts.udp, ts.plan)
 		if err != nil {
@@ -204,7 +254,14 @@ func run(sp spec, root string, seed int64) *annh.Sc {
 			}
 		}
 		trks = append(trks, k)
-		tiers[ts.tier] = append(tiers[ts.tier], k.URL())
+		if sp.kind == "addtracker-stopping" && !ts.late {
+			k.StopDelay = 400 * time.Millisecond
+		}
+		if ts.late {
+			lateURLs = append(lateURLs, k.URL())
+		} else {
+			tiers[ts.tier] = append(tiers[ts.tier], k.URL())
+		}
 		tierKs[ts.tier] = append(tierKs[ts.tier], i+1)
 		sc.Trk = append(sc.Trk, annh.TrkCfg{UDP: ts.udp, Dest: i + 1, Up0: true})
 		if ts.tier > maxTier {
@@ -213,7 +270,9 @@ func run(sp spec, root string, seed int64) *annh.Sc {
 	}
 	var tl [][]string
 	for t := 0; t <= maxTier; t++ {
-		tl = append(tl, tiers[t])
+		if len(tiers[t]) > 0 {
+			tl = append(tl, tiers[t])
+		}
 		sc.Ann = append(sc.Ann, annh.AnnCfg{T: 1, Ks: tierKs[t]})
 	}
 	tor := annh.SmallTorrent("c15-"+sp.name, sp.size, seed, tl)
@@ -228,6 +287,19 @@ func run(sp spec, root string, seed int64) *annh.Sc {
 		sc.Fail("add: %v", err)
 		return sc
 	}
+	addTrackers := func() bool {
+		for _, u := range lateURLs {
+			sc.Line("note", map[string]any{"what": "addtracker", "status": int(tr.Stats().Status)})
+			if err := tr.AddTracker(u); err != nil {
+				sc.Fail("addtracker: %v", err)
+				return false
+			}
+		}
+		return true
+	}
+	if sp.addFirst && !addTrackers() {
+		return sc
+	}
 	sc.Line("start", map[string]any{"t": 1})
 	if err := tr.Start(); err != nil {
 		sc.Fail("start: %v", err)
@@ -235,13 +307,35 @@ func run(sp spec, root string, seed int64) *annh.Sc {
 	}
 	port := tr.Port()
 	sc.Tor[0].Port = port
-	// the peer id rain presents to peers for this torrent
-	pid, err := annh.HandshakePeerID("127.0.0.9", port, tor.InfoHash)
-	if err != nil {
-		sc.Fail("handshake: %v", err)
-		return sc
+	// the peer id rain presents to peers for this torrent (the acceptor may open late: gated allocation / verification)
+	pidC := make(chan string, 1)
+	go func() {
+		for try := 0; try < 12; try++ {
+			if pid, err := annh.HandshakePeerID("127.0.0.9", port, tor.InfoHash); err == nil {
+				pidC <- pid
+				return
+			}
+		}
+		pidC <- ""
+	}()
+	pidKnown := false
+	getPID := func() bool {
+		if pidKnown {
+			return true
+		}
+		select {
+		case pid := <-pidC:
+			if pid == "" {
+				sc.Fail("handshake failed")
+				return false
+			}
+			sc.Tor[0].PID, pidKnown = pid, true
+			return true
+		case <-time.After(25 * time.Second):
+			sc.Fail("handshake timed out")
+			return false
+		}
 	}
-	sc.Tor[0].PID = pid
 	if !sp.prefill {
 		go func() {
 			select {
@@ -288,9 +382,36 @@ func run(sp spec, root string, seed int64) *annh.Sc {
 				sc.Fail("download did not complete")
 				return sc
 			}
+		case "addtracker":
+			if !addTrackers() {
+				return sc
+			}
+		case "release":
+			gateOnce.Do(func() { close(gate) })
+		case "waitstatus":
+			if !annh.WaitUntil(time.Duration(st.ms)*time.Millisecond, func() bool { return int(tr.Stats().Status) == st.n }) {
+				sc.Fail("status %d not reached (now %d)", st.n, int(tr.Stats().Status))
+				return sc
+			}
+		case "stopnowait":
+			if !getPID() {
+				return sc
+			}
+			sc.Line("stop", map[string]any{"t": 1})
+			tr.Stop()
+			running = false
+		case "waitstopped":
+			if !annh.WaitUntil(5*time.Second, func() bool { return tr.Stats().Status == torrent.Stopped }) {
+				sc.Fail("torrent did not stop")
+				return sc
+			}
+			time.Sleep(30 * time.Millisecond)
 		case "stop":
 			if !running {
 				continue
+			}
+			if !getPID() { // the torrent is still running here, so the probe has had its chance
+				return sc
 			}
 			// counters at a quiescent point: nothing is transferred any more (no seeder, or download complete)
 			stt := tr.Stats()
@@ -318,8 +439,92 @@ func run(sp spec, root string, seed int64) *annh.Sc {
 		sc.Tor[0].Dmax = (seeder.Served.Load() + 1) * 16384
 		seeder.Close()
 	}
+	if !getPID() {
+		return sc
+	}
 	sc.Line("end", nil)
 	sc.Meta["storm_hit"] = stormHit.Load()
+	return sc
+}
+
+// runRtx: three torrents of one session share one UDP tracker (one transport, one socket). The tracker ignores the first
+// announce datagram of torrent 1, so BEP 15 makes the client retransmit it (15 s, fixed in udptracker/backoff.go) while the
+// other two torrents keep announcing through the same transport. Every datagram that reaches the tracker is compared with
+// the first one of its transaction (annh.Trk `rtx` lines).
+func runRtx(sp spec, sc *annh.Sc, root string, seed int64) *annh.Sc {
+	sc.Cmin, sc.Lat = sp.cmin, 1500
+	env, err := annh.NewEnv(root, func(c *torrent.Config) {
+		c.TrackerMinAnnounceInterval = time.Duration(sp.cmin) * time.Millisecond
+		c.TrackerStopTimeout = 800 * time.Millisecond
+	})
+	if err != nil {
+		sc.Fail("session: %v", err)
+		return sc
+	}
+	defer env.Close()
+	var first sync.Map // info-hash -> seen
+	k, err := annh.NewTrk(sc, 1, true, nil)
+	if err != nil {
+		sc.Fail("tracker: %v", err)
+		return sc
+	}
+	defer k.Close()
+	k.RtxIV = 2
+	sc.Trk = []annh.TrkCfg{{UDP: true, Dest: 1, Up0: true}}
+	var trs []*torrent.Torrent
+	var tors []*vh.Torrent
+	for i := 0; i < 3; i++ {
+		tor := annh.SmallTorrent(fmt.Sprintf("c15-%s-%d", sp.name, i), sp.size, seed*10+int64(i), [][]string{{k.URL()}})
+		tr, err := env.Add(tor, fmt.Sprintf("t%d-%s", i, sp.name), true, false)
+		if err != nil {
+			sc.Fail("add: %v", err)
+			return sc
+		}
+		sc.Tor = append(sc.Tor, annh.TorCfg{IH: hex.EncodeToString(tor.InfoHash[:]), Port: tr.Port(), Total: tor.Total, Left0: tor.Total})
+		sc.Ann = append(sc.Ann, annh.AnnCfg{T: i + 1, Ks: []int{1}})
+		trs, tors = append(trs, tr), append(tors, tor)
+	}
+	ihA := sc.Tor[0].IH
+	k.Plan = func(n int, r vh.AnnReq) annh.Rep {
+		if _, seen := first.LoadOrStore(r.InfoHash, true); !seen && r.InfoHash == ihA {
+			return annh.Rep{Kind: "rtx", Up: true}
+		}
+		return annh.OK(vh.I64(1), nil)
+	}
+	for i := 0; i < 3; i++ {
+		sc.Line("start", map[string]any{"t": i + 1})
+		if err := trs[i].Start(); err != nil {
+			sc.Fail("start: %v", err)
+			return sc
+		}
+		if i == 0 && !annh.WaitUntil(6*time.Second, func() bool { return k.Count.Load() >= 1 }) {
+			sc.Fail("first announce of torrent 1 not seen")
+			return sc
+		}
+	}
+	for i := 0; i < 3; i++ {
+		pid, err := annh.HandshakePeerID("127.0.0.9", sc.Tor[i].Port, tors[i].InfoHash)
+		if err != nil {
+			sc.Fail("handshake: %v", err)
+			return sc
+		}
+		sc.Tor[i].PID = pid
+	}
+	// the retransmission is due 15 s after the first datagram; leave room for its answer and one more announce
+	dl := time.Now().Add(17500 * time.Millisecond)
+	for time.Now().Before(dl) {
+		time.Sleep(250 * time.Millisecond)
+		sc.Line("tick", nil)
+	}
+	for i := 0; i < 3; i++ {
+		sc.Line("stop", map[string]any{"t": i + 1})
+		trs[i].Stop()
+	}
+	for i := 0; i < 3; i++ {
+		annh.WaitUntil(5*time.Second, func() bool { return trs[i].Stats().Status == torrent.Stopped })
+	}
+	time.Sleep(50 * time.Millisecond)
+	sc.Line("end", nil)
 	return sc
 }
 
